@@ -12,21 +12,25 @@ def run(ctx):
     lng = {"evaluations": 0, "idle_calls": 0, "wrap_crossings": 0, "exception_cases": 0, "distinct": 0, "sparse_change_checks": 0}
     lsamples = []
     lost = 0
+    viol_crash = shm.crash_violations(parts)
     for p in parts:
         if p is None:
             lost += 1
+            continue
+        if p.get("_crashed"):
             continue
         for k in lng:
             lng[k] += p.get(k, 0)
         viol += p["violations"]
         lsamples += p["samples"][:1]
+    viol += viol_crash
     ctx.log("c03long: %s" % lng)
     magg, mviol, msamples, mlost = shm.run_miri(ctx, "c03", 16 if q else 256, 20)
     ctx.log("miri c03: %s lost %d" % (magg, mlost))
     viol += shm.miri_violations_for(ctx, mviol, "C03")
     pagg, pviol = shm.run_proc(ctx, 8 if q else 120)
     ctx.log("proc: %s" % pagg)
-    viol += [v for v in pviol if v["sig"] in ("proc-went-backwards", "proc-stale-at-quiescence", "reader-crashed", "reader-died", "reader-hung")]
+    viol += [v for v in pviol if v["sig"] in ("proc-went-backwards", "proc-stale-at-quiescence", "reader-crashed", "reader-died", "reader-hung", "reader-process-died")]
     inconclusive = None
     if cov["idle_calls"] < 1000 or lng["exception_cases"] < 1 or lng["wrap_crossings"] < 1 or magg["idle_calls"] < 20:
         inconclusive = "monitors observed too little (idle calls %d, exception cases %d, wrap crossings %d, miri idle calls %d)" % (
